@@ -339,7 +339,10 @@ def start_states(tier):
     dele = T([["del", "k1"]], "nomerge")
     loose = T([["add", "k0", "a"], ["add", "k1", "b"]], "nomerge", compound=False)
     five = [T([["add", "k%d" % i, "abc"[i % 3]]], "nomerge") for i in range(5)]
-    starts = [[], [one], [one, two], [one, dele], five]
+    # generation 9, so that the recorded transaction takes the generation
+    # number across a digit-count boundary (TOC names are compared as numbers)
+    gen9 = [one] + [T([], "nomerge") for _ in range(8)]
+    starts = [[], [one], [one, two], [one, dele], five, gen9]
     if tier != "quick":
         starts += [[loose, two], [one, two, dele], [one, T([["upd", "k0", "c"]], "commit")],
                    five + [T([["del", "k3"]], "nomerge")]]
